@@ -40,6 +40,7 @@ LEVEL = {
                    "fault model.",
     "technique": "static analysis: ownership/cleanup-coverage dataflow on a CFG with exception edges",
 }
+LEVEL["decided"] += ' A call of a library helper that validates its argument (an explicit raise reachable for that call shape) counts as a point of failure in R04.1.'
 
 # handles that deliberately do not close what they wrap (K0)
 NON_OWNING_HANDLES = {
